@@ -30,6 +30,9 @@ func (eval Evaluator) GadgetProduct(levelQ int, cx ring.Poly, gadgetCt *GadgetCi
 }
 
 // ModDown takes ctQP (mod QP) and returns ct = (ctQP/P) (mod Q).
+// The NTT domain of the input and of the output are given by ctQP.IsNTT and ct.IsNTT.
+// If ctQP is in the NTT domain and ct is not (and levelP > -1), ctQP is used as a buffer: its polynomials are
+// overwritten by their (not reduced) inverse NTT and ctQP.IsNTT is left unchanged.
 func (eval Evaluator) ModDown(levelQ, levelP int, ctQP *Element[ringqp.Poly], ct *Ciphertext) {
 
 	ringQP := eval.params.RingQP().AtLevel(levelQ, levelP)
